@@ -8,11 +8,13 @@ func init() {
 			{Pkg: "reactive", Harness: "event", Weight: 2},
 			{Pkg: "reactive", Harness: "set", Config: "noreplace", Weight: 3, Note: "without Replace, so that everything else is explored in runs the Replace report defect would end"},
 			{Pkg: "reactive", Harness: "set", Weight: 2, Note: "full method mix incl. Replace"},
+			{Pkg: "reactive", Harness: "varutils", Weight: 1, Note: "subscription utilities built on OnUpdate: OnUpdateOnce, OnUpdateWithContext, WithValue, WithNonEmptyValue; ToggleValue, Read"},
+			{Pkg: "reactive", Harness: "setutils", Weight: 1, Note: "Set.WithElements and the ReadOnly view"},
 		},
 		QuickS: 30, ThoroughS: 900,
-		Rule:   "each run draws 1-3 writers x 1-4 operations (Variable: Set/Compute/DefaultTo with unique values, now and then zero or a no-op; Event: Trigger/Set(true)/reset attempts; Set over 4 elements: Add/Delete/AddAll/DeleteAll/Apply/Compute/Replace), 1-3 subscriber tasks x 1-2 subscriptions (OnUpdate with/without the initial-trigger option, OnTrigger) at decision-chosen moments, unsubscribes by the subscriber or by a separate task, callbacks that yield 1-2 times, and a schedule; distinct = distinct (script, schedule, event log) hash; non-trivial = at least two recorded decisions",
+		Rule:   "each run draws 1-3 writers x 1-4 operations (Variable: Set/Compute/DefaultTo with unique values, now and then zero or a no-op; Event: Trigger/Set(true)/reset attempts; Set over 4 elements: Add/Delete/AddAll/DeleteAll/Apply/Compute/Replace), 1-3 subscriber tasks x 1-2 subscriptions (OnUpdate with/without the initial-trigger option, OnTrigger) at decision-chosen moments, unsubscribes by the subscriber or by a separate task, callbacks that yield 1-2 times, and a schedule; varutils: 1-2 writers (Set/Compute/ToggleValue+reset/Read) and 1-3 tasks x 1-2 utility subscriptions (OnUpdateOnce, OnUpdateWithContext with 1-2 set-ups per callback, WithValue, WithNonEmptyValue, conditions drawn from a small menu); setutils: the Set writers, 1-2 tasks x 1-2 WithElements subscriptions and a reader of the ReadOnly view; distinct = distinct (script, schedule, event log) hash; non-trivial = at least two recorded decisions",
 		Real:   []string{"ds/reactive (Variable, Event, Set, callback/execution-lock protocol)", "ds (List, Set, SetMutations)", "ds/orderedmap, ds/shrinkingmap"},
 		Stubs:  append([]string{"a reference subscription registered by the main task before any other task numbers the changes and (for sets) reads the true contents inside its callback (observation only; it is checked by the same oracles)"}, commonStubs...),
-		Assume: []string{"one task executes at a time; context switches only at sync/atomic operations and explicit yields in callbacks", "folding uses the library's own ds.Set.Apply (adds, then deletes)", "the state a subscription starts from must have been the state at some instant of the subscribing call; a change must be delivered if its write was invoked after the subscribing call returned and returned before the unsubscribe call was invoked (overlaps may go either way)", "unsubscribing from inside the callback itself is API misuse and not generated", "bounded: <=3 writers x <=4 operations, <=6 subscriptions, 4 set elements"},
+		Assume: []string{"one task executes at a time; context switches only at sync/atomic operations and explicit yields in callbacks", "folding uses the library's own ds.Set.Apply (adds, then deletes)", "the state a subscription starts from must have been the state at some instant of the subscribing call; a change must be delivered if its write was invoked after the subscribing call returned and returned before the unsubscribe call was invoked (overlaps may go either way)", "unsubscribing from inside the callback itself is API misuse and not generated", "utilities (OnUpdateOnce, OnUpdateWithContext, WithValue, WithNonEmptyValue, WithElements): judged as the OnUpdate subscription they wrap - the state at subscription time counts as the transition zero->state; a set-up is active from the call of the setup function to the call of the teardown it returned; the ReadOnly view is judged per element (mutations are applied element by element, Replace clears first)", "bounded: <=3 writers x <=4 operations, <=6 subscriptions, 4 set elements"},
 	})
 }
